@@ -232,6 +232,23 @@ pub fn run(ctx: &Ctx) -> i32 {
         st.count("grapheme_class_repetition_variants");
         check_case(ctx, st, &tcs, Settings::new(o | m));
     });
+    // medium-sized inputs: many / long test cases, many distinct symbols, long repeats, deep prefix chains
+    {
+        let n = if ctx.thorough { 4000 } else { 300 };
+        let names = ["ab", "abc", "mixed", "meta"];
+        let als: Vec<Vec<String>> = names.iter().map(|a| gen::alphabet(a)).collect();
+        par_for(&ctx.run, n, |i, st| {
+            let mut rng = Rng::new(seed, 0x81_0000 + i as u64);
+            let tcs = gen::medium_family(&mut rng, &als[i % als.len()]);
+            let tcs: Vec<String> = tcs.into_iter().filter(|t| !t.is_empty()).collect();
+            if tcs.is_empty() {
+                return;
+            }
+            st.count("medium_sized_inputs");
+            let s = Settings::new(MODES[1 + i % 3] | if i % 5 == 0 { REP } else { 0 });
+            check_case(ctx, st, &tcs, s);
+        });
+    }
     // random prefix-related families
     let n = if ctx.thorough { 150_000 } else { 10_000 };
     let names = ["ab", "abc", "graph", "meta", "case", "classes", "mixed", "ws", "astral", "clusters"];
